@@ -352,7 +352,10 @@ class BalWorld(object):
         REC.violation('C06', 'should_have_grown',
                       '%d calls held in flight for %.0f s over %d active members (load >= %.2f > max_load %.2f) with %d idle members and max_size %d' % (
                         c, op['dur'], a, (c - 1) / float(a), ap['max_load'], idle, ap['max_size']), {})
-      if c / float(a) < 0.9 * ap['min_load'] and a > ap['min_size'] and healthy > ap['min_size'] \
+      other = len([x for x in self.tracker.order if not x.completions and not x.extra.get('steady')])
+      if other:
+        REC.probe('steady_with_slow_requests')
+      if (c + other) / float(a) < 0.9 * ap['min_load'] and a > ap['min_size'] and healthy > ap['min_size'] \
           and not self.lb._pending_endpoints:
         REC.violation('C06', 'should_have_shrunk',
                       '%d calls held in flight for %.0f s over %d active members (load <= %.2f < min_load %.2f), min_size %d' % (
@@ -429,6 +432,25 @@ class BalWorld(object):
                           {'load_driven': True})
         return orig_expand(*a, **kw)
       self.lb._TryExpandAperture = expand
+      # ... and whenever the smoothed load per active member is at or above
+      # max_load after a get/put, idle members remain and the set is below
+      # max_size, that very adjustment grows the active set by one
+      orig_adjust = self.lb._AdjustAperture
+      max_load = cfg['aperture']['max_load']
+
+      def adjust(amount):
+        lb = self.lb
+        size0, idle0 = lb._size, len(lb._idle_endpoints)
+        r = orig_adjust(amount)
+        ema = getattr(getattr(lb, '_ema', None), 'value', None)
+        if size0 and ema is not None and idle0 and size0 < max_size and ema / size0 >= max_load:
+          REC.probe('growth_due_at_event')
+          if lb._size <= size0:
+            REC.violation('C06', 'should_have_grown',
+                          'after a get/put the smoothed load per active member was %.2f >= max_load %.2f with %d idle member(s) and %d < max_size %d active, and the active set did not grow' % (
+                            ema / size0, max_load, idle0, size0, max_size), {'at_event': True})
+        return r
+      self.lb._AdjustAperture = adjust
     self.open_ar = self.disp.Open()
     self.loop.on_advance = self.settle
     gevent.sleep(0.0005)
